@@ -232,6 +232,8 @@ func c04scanset(c *an.Ctx) {
 			}
 		}
 		qb := &an.PathQ{Fn: fn, StartAfter: calls, Tracked: tracked,
+			// one iteration only: the next select is the next tick, judged on its own
+			Cut: func(in ssa.Instruction, _ *an.PathState) bool { return in == ssa.Instruction(mainSel) },
 			SinkEdge: func(e an.Edge, ps *an.PathState) bool {
 				if e.To != l.Header {
 					return false
